@@ -48,7 +48,7 @@ def run(tier):
             V.violation(r.key_of(cases[eid], clause, obs[eid]), {'case': cases[eid], 'observed': obs[eid], 'clause': clause})
         if res['nbad'] > len(res['bad']):
             V.note('%d failing events in total; first %d reported' % (res['nbad'], len(res['bad'])))
-        rc = V.finish()
+        rc = V.finish(max_print=400)
         nvals = sum(len(e['res'].get('values') or []) for o in obs for e in (o.get('ents') or []))
         common.write_evidence(PROP, tier, 'model_checking', {
             'states': gstates + res['states'], 'transitions': gtrans + res['transitions'],
